@@ -33,6 +33,8 @@ pub fn run_xdh(tr: &mut Trace, rng: &mut Rng, n: usize) {
         let mut t = b.clone(); t[31] |= 0x80; us.push(t);
         us.push(b);
     }
+    // the base point with one other byte set (a special case for the generator must compare the whole string)
+    for i in 1..32 { let mut b = vec![0u8; 32]; b[0] = 9; b[i] = if i % 3 == 0 { 0x80 } else { 1 }; us.push(b); }
     let ks: Vec<Vec<u8>> = vec![vec![0u8; 32], vec![0xFFu8; 32], { let mut k = vec![0u8; 32]; k[0] = 7; k[31] = 0x80; k }];
     let mut cases: Vec<(Vec<u8>, Vec<u8>)> = Vec::new();
     for u in us.iter() { cases.push((u.clone(), rng.bytes(32))); }
@@ -67,6 +69,8 @@ pub fn run_xdh(tr: &mut Trace, rng: &mut Rng, n: usize) {
     let mut us: Vec<Vec<u8>> = Vec::new();
     for k in 0..8u32 { us.push(le56(&BigUint::from(k))); us.push(le56(&(&p448 - 1u32 - k))); us.push(le56(&(&p448 + k))); }
     us.push(vec![0xFFu8; 56]);
+    for i in 1..56 { let mut b = vec![0u8; 56]; b[0] = 5; b[i] = if i % 3 == 0 { 0x80 } else { 1 }; us.push(b); }
+    { let mut b = vec![0u8; 56]; b[0] = 5; b[55] = 0xFF; us.push(b); }
     let ks: Vec<Vec<u8>> = vec![vec![0u8; 56], vec![0xFFu8; 56]];
     let mut cases: Vec<(Vec<u8>, Vec<u8>)> = Vec::new();
     for u in us.iter() { cases.push((u.clone(), rng.bytes(56))); }
@@ -118,7 +122,13 @@ impl SplitShape for crrl::ed448::Scalar {
     }
 }
 /// coefficient shapes that exercise sign handling and byte-wise carries of the callers of split_vartime
-pub fn interesting_shape(sh: &[(bool, Vec<u8>)]) -> Option<usize> {
+pub fn interesting_shape(sh: &[(bool, Vec<u8>)], lmax: usize) -> Option<usize> {
+    for (_i, (_neg, m)) in sh.iter().enumerate() {
+        // a coefficient of the largest possible bit length whose top five bits are at least 10001: the half-width
+        // wNAF recoding carries into its last digit
+        let v = num_bigint::BigUint::from_bytes_le(m);
+        if v.bits() as usize == lmax && ((&v >> (lmax - 5)) & num_bigint::BigUint::from(31u32)) >= num_bigint::BigUint::from(17u32) { return Some(6); }
+    }
     for (i, (neg, m)) in sh.iter().enumerate() {
         if *neg && m[0] == 0 { return Some(i); }                      // negation carries past the low byte
         if m[0] == 0 && m[1] == 0 { return Some(2 + i); }             // two zero low bytes
@@ -214,16 +224,16 @@ macro_rules! eddsa_impl {
                 {
                     let seed = rng.bytes($seedlen);
                     let pk = PrivateKey::from_seed(&seed).public_key.encode().to_vec();
-                    let mut seen = [0usize; 6];
+                    let mut seen = [0usize; 7];
                     let mut found = 0usize;
-                    let budget = if n_honest > 20 { 40000u32 } else { 6000u32 };
-                    let want = if n_honest > 20 { 24 } else { 6 };
+                    let budget = if n_honest > 20 { 60000u32 } else { 12000u32 };
+                    let want = if n_honest > 20 { 28 } else { 9 };
                     let base = rng.u64() as u32;
                     for i in 0..budget {
                         let msg = base.wrapping_add(i).to_le_bytes().to_vec();
                         let sg = PrivateKey::from_seed(&seed).sign_raw(&msg).to_vec();
                         let k = challenge("raw", &sg[..$plen], &pk, &[], &msg);
-                        let cls = match interesting_shape(&k.shape()) { Some(c) => c, None => continue };
+                        let cls = match interesting_shape(&k.shape(), if $plen == 57 { 224 } else { 127 }) { Some(c) => c, None => continue };
                         if seen[cls] >= 2 + want / 6 { continue; }
                         seen[cls] += 1; found += 1;
                         if let Some(sig) = sign(tr, "raw", &seed, &[], &msg) {
@@ -453,6 +463,30 @@ macro_rules! ecdsa_impl {
                     // the point-at-infinity outcome: Q = -(h/r)*G makes [h/s]G + [r/s]Q the neutral
                     let q = -(Point::mulgen(&(h / r)));
                     if q.isneutral() == 0 { verify(tr, &q.encode_uncompressed().to_vec(), &sig, &hv); }
+                }
+                // signatures valid by construction whose multiplier u = r/s is a prescribed scalar: the lattice-derived
+                // boundary scalars of the endomorphism split (secp256k1), the order's neighbourhood and small values
+                // (both curves): choose u and k, then r = x(kG), s = r/u, x = (s*k - h)/r
+                {
+                    let mut us: Vec<Vec<u8>> = crate::group::endo_boundary_scalars::<Point>(rng, if n_adv > 40 { 120 } else { 30 });
+                    for v in [1u32, 2, 3] { us.push(be32(&BigUint::from(v)).into_iter().rev().collect()); us.push(be32(&(&n - v)).into_iter().rev().collect()); }
+                    for ub in us.iter() {
+                        let u = Scalar::decode_reduce(ub);
+                        if u.iszero() != 0 { continue; }
+                        let k = Scalar::decode_reduce(&rng.bytes(48));
+                        let enc = Point::mulgen(&k).encode_uncompressed();
+                        let r = Scalar::decode_reduce(&{ let mut x = enc[1..33].to_vec(); x.reverse(); x });
+                        if r.iszero() != 0 { continue; }
+                        let s = r / u;
+                        let hv = rng.bytes(32);
+                        let h = Scalar::decode_reduce(&{ let mut x = hv.clone(); x.reverse(); x });
+                        let x = (s * k - h) / r;
+                        if x.iszero() != 0 || s.iszero() != 0 { continue; }
+                        let pk = Point::mulgen(&x).encode_uncompressed().to_vec();
+                        let mut sig = { let mut b = r.encode().to_vec(); b.reverse(); b };
+                        sig.extend_from_slice(&{ let mut b = s.encode().to_vec(); b.reverse(); b });
+                        verify(tr, &pk, &sig, &hv);
+                    }
                 }
                 // x(R) in [n, p-1]: R = (n + j, y) on the curve, r = j.  The verifier must reduce
                 // x(R) modulo n before comparing with r.
